@@ -33,13 +33,24 @@ func (b *Bind) GetSequenceID() uint32 {
 }
 
 func (b *Bind) GetCommand() sms.ICommander {
+	switch b.Header.ID {
+	case smpp.BIND_RECEIVER, smpp.BIND_TRANSMITTER:
+		return b.Header.ID
+	}
 	return smpp.BIND_TRANSCEIVER
 }
 
 func (b *Bind) GenEmptyResponse() sms.PDU {
+	id := smpp.BIND_TRANSCEIVER_RESP
+	switch b.Header.ID {
+	case smpp.BIND_RECEIVER:
+		id = smpp.BIND_RECEIVER_RESP
+	case smpp.BIND_TRANSMITTER:
+		id = smpp.BIND_TRANSMITTER_RESP
+	}
 	return &BindResp{
 		Header: smpp.Header{
-			ID:       smpp.BIND_TRANSCEIVER_RESP,
+			ID:       id,
 			Sequence: b.Header.Sequence,
 		},
 	}
@@ -116,6 +127,10 @@ func (b *BindResp) GetSequenceID() uint32 {
 }
 
 func (b *BindResp) GetCommand() sms.ICommander {
+	switch b.Header.ID {
+	case smpp.BIND_RECEIVER_RESP, smpp.BIND_TRANSMITTER_RESP:
+		return b.Header.ID
+	}
 	return smpp.BIND_TRANSCEIVER_RESP
 }
 
